@@ -310,6 +310,27 @@ async fn run_honest_tree<TC: Configuration>(cc: &CaseCtx, case: &HistCase, rng: 
                     j.judge(l, "H3-invented-newer-version", p, hp, false, "-");
                 }
             }
+            // ---- H3d: versions outside the sane range: an extra oldest entry with version 0, a newest entry with
+            // a version beyond the current epoch (the verifier must refuse, never panic)
+            {
+                let mut p = honest.clone();
+                if let Some(last) = p.update_proofs.last().cloned() {
+                    if last.version == 1 {
+                        let mut z = last.clone();
+                        z.version = 0;
+                        p.update_proofs.push(z);
+                        j.judge(l, "H3-version-zero-appended", p, hp, false, "-");
+                    }
+                }
+                let mut p = honest.clone();
+                for (k, u) in p.update_proofs.iter_mut().enumerate() {
+                    u.version = cur + (want.len() - k) as u64;
+                }
+                j.judge(l, "H3-versions-beyond-current-epoch", p, hp, false, "-");
+                let mut p = honest.clone();
+                p.update_proofs[0].version = u64::MAX;
+                j.judge(l, "H3-newest-version-u64-max", p, hp, false, "-");
+            }
             // ---- H2b: no update proofs at all (with and without marker proofs)
             {
                 let mut p = honest.clone();
